@@ -348,3 +348,32 @@ def oracle(sc, obs, abm_clauses=True):
                 if tags != want:
                     bad.append(f"peek: peak_ahead({n}) = {tags}, execution order is {want}")
     return bad
+
+
+# --------------------------------------------------------------------------------------
+# C18 part: rejected scheduling calls (past / wrong unit) leave the simulator unchanged
+
+C18_LEAN_MODULES = ["MesaModel.Props.C14"]
+C18_THEOREMS = ["Mesa.Devs.C14_schedule_rejects_exactly"]
+C18_DRIVER = "drv_devs"
+
+
+def generate_rejecting(rng, tier, count):
+    n = 0
+    while n < count:
+        sc = gen_scenario(rng, run_weight=0.8)
+        # bias towards rejected calls: rewrite some accepted top-level schedules into past / wrong-unit ones
+        kind = sc.lines[0].split()[1]
+        out = []
+        for l in sc.lines:
+            w = l.split()
+            if w[0] == "abs" and rng.random() < 0.35:
+                l = f"abs {rng.choice([-1024, -1, 0, 100, 513] if kind == 'abm' else [-1024, -1, 0])} {w[2]} {w[3]}"
+            elif w[0] == "rel" and rng.random() < 0.35:
+                l = f"rel {rng.choice([-2048, -1, 1, 512] if kind == 'abm' else [-2048, -1])} {w[2]} {w[3]}"
+            out.append(l)
+        sc.lines = out
+        # horizons were computed for the unmodified scenario; keep only `for`/`next`/peek run ops to stay in the quantifier
+        sc.lines = [("for " + str(int(l.split()[1]) % 3072) if l.startswith("until ") else l) for l in sc.lines]
+        n += 1
+        yield sc
